@@ -89,6 +89,20 @@ def run_e2e(c):
             cf(arg, n)
         # set access times of output.pkl (get_items reads getatime(output.pkl))
         infos = {}
+        # a second cached function whose store directory lies BELOW the first one's (a cached helper defined inside a
+        # cached function: <f>/<locals>/<g>/<hash>): its entries are entries of the store like any other
+        for gid, n, t in c.get("nested", []):
+            def g(arg, n_):
+                return (arg, payload(n_))
+            g.__module__ = "verif_c18"
+            g.__name__ = "g"
+            g.__qualname__ = "f.<locals>.g"
+            cg = mem.cache(g)
+            cg(gid, n)
+            path = os.path.join(cg.store_backend.location, cg.func_id, cg._get_args_id(gid, n))
+            ts = (BASE + real_datetime.timedelta(seconds=t)).timestamp()
+            os.utime(os.path.join(path, "output.pkl"), (ts, ts))
+            infos[path] = gid
         for arg, n, t in c["entries"]:
             path = os.path.join(cf.store_backend.location, cf.func_id, cf._get_args_id(arg, n))
             ts = (BASE + real_datetime.timedelta(seconds=t)).timestamp()
